@@ -407,7 +407,7 @@ func generate(r *simrt.Rand, pf *Profile) (Cfg, *Program) {
 	return c, p
 }
 
-var idAlphabet = []string{"a", "job", "ünï", "x y", "\"q\"", "<&>", "0", "日本", "id-", "k\x1fv", "del\x7f", "tag\U000e0001", "nl\n"}
+var idAlphabet = []string{"a", "job", "ünï", "x y", "\"q\"", "<&>", "0", "日本", "id-", "k\x1fv", "del\x7f", "tag\U000e0001", "nl\n", " lead", "\ttab", "\u00a0nbsp"}
 
 func pick2(r *simrt.Rand, n int) string {
 	return idAlphabet[r.Intn(len(idAlphabet))] + itoa(n)
@@ -521,6 +521,11 @@ func init() {
 		Gen: func(r *simrt.Rand, tier string) (Cfg, *Program) {
 			pf := baseProfile()
 			pf.BoundPct = 10 // bounded user queues: a producer waiting for room relies on the worker being woken for what is already in
+			if r.Chance(20) {
+				// several queues under every strategy: whichever queue holds the jobs, they are dispatched
+				pf.NQ = [2]int{2, 3}
+				pf.Strategy = []int{int(RoundRobin), int(MaxLen), int(MinLen)}
+			}
 			pf.WrapDeqPct = 15 // user-supplied queues that refuse a dequeue now and then
 			pf.Expiry = []int{0, 0, 1, 50}
 			pf.TickW = []int{0, 2, 10}
@@ -808,7 +813,7 @@ func init() {
 			pf.ErrPct, pf.PanicPct = 20, 10
 			pf.Samplers, pf.SampleOps = [2]int{1, 3}, [2]int{2, 6}
 			pf.Sample = []wop{{opSample, 5}, {opQueuePending, 4}, {opSettle, 1}, {opYield, 2}}
-			pf.Ctrl = []wop{{opPause, 2}, {opResume, 2}, {opPauseAndWait, 1}, {opStop, 1}, {opRestart, 1}, {opSettle, 4}}
+			pf.Ctrl = []wop{{opPause, 2}, {opResume, 2}, {opPauseAndWait, 1}, {opStop, 1}, {opRestart, 1}, {opSettle, 4}, {opTune, 2}}
 			pf.CtrlOps = [2]int{0, 5}
 			pf.CtrlGapPct = 30
 			pf.Cancellers, pf.CancelOps = [2]int{0, 1}, [2]int{1, 3}
@@ -831,6 +836,7 @@ func init() {
 		Gen: func(r *simrt.Rand, tier string) (Cfg, *Program) {
 			pf := baseProfile()
 			pf.WrapDeqPct = 15 // user-supplied queues that refuse a dequeue now and then
+			distC02 := false
 			pf.Conc = []int{1, 1, 2, 2, 3, 4, 0, -3}
 			pf.Adds = [2]int{3, 10}
 			pf.GatedPct, pf.DelayPct = 80, 20
@@ -841,6 +847,7 @@ func init() {
 				pf.QKinds = []int{qkDist, qkDistPrio}
 				pf.Producers = [2]int{2, 4}
 				pf.Conc = []int{1, 2, 2, 3}
+				distC02 = true
 			}
 			pf.Ctrl = []wop{{opTune, 8}, {opPause, 1}, {opResume, 2}, {opRestart, 1}, {opSettle, 2}}
 			pf.CtrlOps = [2]int{1, 6}
@@ -860,6 +867,16 @@ func init() {
 				pf.NQ = [2]int{1, 1}
 			}
 			c, p := generate(r, pf)
+			if distC02 && r.Chance(50) {
+				// entries the worker cannot decode are dropped by the dispatcher: the slot it had
+				// reserved for them is given back exactly once
+				for i, n := 0, 1+r.Intn(2); i < n && len(p.Tasks) > 0; i++ {
+					t := r.Intn(len(p.Tasks))
+					pos := r.Intn(len(p.Tasks[t]) + 1)
+					op := Op{K: opInject, Q: 0, A: r.Intn(5)}
+					p.Tasks[t] = append(p.Tasks[t][:pos:pos], append([]Op{op}, p.Tasks[t][pos:]...)...)
+				}
+			}
 			if lateBind {
 				// "binding further queues never raises the effective parallelism": a distributed
 				// backend that already holds jobs is bound while the worker is saturated
@@ -948,8 +965,19 @@ func init() {
 			pf.Samplers, pf.SampleOps = [2]int{0, 1}, [2]int{1, 4}
 			pf.Sample = []wop{{opBatchPendingAny, 5}, {opYield, 2}}
 			pf.CloseInFnPct = 10 // a refused Close on an executing batch item must change nothing
-			bigBatch(pf, r, tier)
-			return generate(r, pf)
+			big := bigBatch(pf, r, tier)
+			c, p := generate(r, pf)
+			if !big && p.NBatches > 0 && r.Chance(15) {
+				// fire and forget: the caller abandons a batch with Drain while its items are
+				// still being executed; nothing may crash and Wait must still return
+				var ops []Op
+				for k := r.Intn(6); k > 0; k-- {
+					ops = append(ops, Op{K: opYield})
+				}
+				ops = append(ops, Op{K: opBatchDrain, A: r.Intn(p.NBatches)})
+				p.Tasks = append(p.Tasks, ops)
+			}
+			return c, p
 		},
 		NonTrivial: func(ep *Episode) bool {
 			for _, b := range ep.W.batches {
